@@ -218,8 +218,15 @@ func c01(c *Ctx) {
 	if gp := p.Fn("internal/bytecode", "GetPtr"); gp != nil {
 		ok := false
 		for _, ret := range returnsOf(gp) {
-			if _, fv, okF := fieldRef(retResult(ret, 0)); okF && fv != nil && fv.Name() == "ptr" {
-				ok = true
+			if b, fv, okF := fieldRef(retResult(ret, 0)); okF && fv != nil {
+				// the data word is the second word of reflect.Value's layout (mirror layout is checked by R5)
+				bt := b.Type()
+				if pt, isP := bt.Underlying().(*types.Pointer); isP {
+					bt = pt.Elem()
+				}
+				if st, isS := bt.Underlying().(*types.Struct); isS && st.NumFields() >= 2 && st.Field(1) == fv {
+					ok = true
+				}
 			}
 		}
 		r.Check(ok, "C01.R2", "bytecode.GetPtr reads the data word", p.Pos(gp.Pos()), "returns the mirror's ptr field", "GetPtr no longer returns the ptr word of the reflect.Value")
